@@ -115,9 +115,15 @@ func c14Subject(r *rand.Rand, pattern string) string {
 	for strings.Contains(s, "//") {
 		s = strings.ReplaceAll(s, "//", "/")
 	}
+	dir := strings.HasSuffix(s, "/") && r.IntN(2) == 0
 	s = strings.Trim(s, "/")
 	if s == "" || s == "." || s == ".." {
 		s = "k"
+	}
+	if dir {
+		// the key of an explicit directory object: "p/" is matched by "p/*" (the star matches the empty
+		// run) and not by "p"
+		s += "/"
 	}
 	return s
 }
